@@ -13,7 +13,10 @@ The loop of `DV.Loop` with what the code does when `events is not None` (`differ
   the last reported event by a **nested** `integrate(root)` without events or callbacks (`DV.Loop.integrate`),
   the status becomes 2, and the loop ends after the usual `dt` update and ONE round of callbacks;
 * otherwise the step is counted and the iteration ends like an iteration of the plain loop;
-* the buffer is grown up to three times per iteration (`counter + 1 ≥ len`, `counter + len(roots) + 1 ≥ len` twice).
+* the buffer is grown up to three times per iteration (`counter + 1 ≥ len`, `counter + len(roots) + 1 ≥ len` twice);
+* the dense-output container (`DenseOutput`: one knot — the end time of the step — per piece) gets the piece of every
+  accepted step, loses it again when the step is dropped or rolled back, gets the pieces of the nested call when dense
+  output is on, and is trimmed to its newest pieces when dense output is off.
 
 Inputs of the model (the oracle): what the integrator returns, what the callbacks do, whether `handle_events`
 raises, the probes the root finder and the sampled event functions delivered for the step (`DV.Events.Probe`),
@@ -43,10 +46,14 @@ structure CfgEv (α : Type) where
   loop : Cfg α
   /-- `D.epsilon(dtype) ** 0.7` -/
   dupTol : α
+  /-- `dense_output=True` -/
+  dense : Bool := true
 
 structure OutEv (α : Type) where
   sys : Sys α
   book : Book α
+  /-- `DenseOutput.t_eval`: the knots of the dense-output pieces, in container order -/
+  knots : List α
   /-- requests of the outer loop, newest first -/
   reqs : List (Req α)
   /-- requests made inside the nested call of a terminal event, newest first -/
@@ -59,6 +66,24 @@ structure OutEv (α : Type) where
 /-- the sign `handle_events` sorts with: direction from `t_prev` to `t_next` -/
 def stepSign (tPrev tNext : α) : α :=
   if tPrev < tNext then Lit.lit 1 else if tNext < tPrev then -(Lit.lit 1) else Lit.lit 0
+
+/-- `DenseOutput.add_interpolant`: one knot (the end time of the step) per piece; a piece that ends before the last
+knot goes to the front -/
+def addKnot (knots : List α) (t : α) : List α :=
+  match knots.getLast? with
+  | none => [t]
+  | some l => if t - l < Lit.lit 0 then t :: knots else knots ++ [t]
+
+/-- `remove_interpolant(-1 if dTime >= 0 else 0)`: the newest piece of a step in the direction of `dT` -/
+def removeNewest (knots : List α) (dT : α) : List α := if Lit.lit 0 ≤ dT then knots.dropLast else knots.drop 1
+
+/-- `for _ in range(n): remove_interpolant(0 if dTime >= 0 else -1)`: the `n` oldest pieces -/
+def trimOldest (knots : List α) (n : Nat) (dT : α) : List α := if Lit.lit 0 ≤ dT then knots.drop n else knots.take (knots.length - n)
+
+/-- what a call without events does to the container: with dense output one piece per new sample, otherwise nothing
+(`before`, `after`: the recorded times, newest first) -/
+def plainKnots (dense : Bool) (knots before after : List α) : List α :=
+  if dense then ((after.take (after.length - before.length)).reverse).foldl addKnot knots else knots
 
 /-- `if counter + nroots + 1 >= len(y): allocate(alloc(tf - dTime) + 1 + nroots)` with `len(y) = cap` -/
 def growthEv (target : α) (s : Sys α) (dT : α) (cap nroots : Nat) : Option Nat :=
@@ -76,69 +101,78 @@ def finishIter (target : α) (wasFinal : Bool) (s1 : Sys α) (it : Iter α) (new
 /-- did the nested call raise? (fault, interrupt, crash — anything but a normal return) -/
 def nestedRaised (o : LoopOut α) : Bool := o.sys.crashed || o.sys.status == 3 || o.sys.status == 4
 
-def failEv (s : Sys α) (b : Book α) (st : Status) (reqs nreqs : List (Req α)) (k : Nat) : OutEv α :=
-  { sys := { s with status := st }, book := b, reqs := reqs, nestedReqs := nreqs, guardExit := false, stopped := false, iters := k }
+def failEv (s : Sys α) (b : Book α) (kn : List α) (st : Status) (reqs nreqs : List (Req α)) (k : Nat) : OutEv α :=
+  { sys := { s with status := st }, book := b, knots := kn, reqs := reqs, nestedReqs := nreqs, guardExit := false, stopped := false, iters := k }
 
 /-- the `while` loop of `integrate(t, events=…)`, at most `fuel` iterations -/
-def loopEv (cfg : CfgEv α) (target : α) (orc : OracleEv α) : Nat → Nat → Sys α → Book α → List (Req α) → OutEv α
-  | 0, k, s, b, reqs => { sys := s, book := b, reqs := reqs, nestedReqs := [], guardExit := !(guard cfg.loop target s), stopped := false, iters := k }
-  | fuel + 1, k, s, b, reqs =>
-    if !(guard cfg.loop target s) then { sys := s, book := b, reqs := reqs, nestedReqs := [], guardExit := true, stopped := false, iters := k } else
+def loopEv (cfg : CfgEv α) (target : α) (orc : OracleEv α) : Nat → Nat → Sys α → Book α → List α → List (Req α) → OutEv α
+  | 0, k, s, b, kn, reqs => { sys := s, book := b, knots := kn, reqs := reqs, nestedReqs := [], guardExit := !(guard cfg.loop target s), stopped := false, iters := k }
+  | fuel + 1, k, s, b, kn, reqs =>
+    if !(guard cfg.loop target s) then { sys := s, book := b, knots := kn, reqs := reqs, nestedReqs := [], guardExit := true, stopped := false, iters := k } else
     let h := request target s
     let wasFinal := isFinal target s
     let req : Req α := { t := s.tcur, h := h, final := wasFinal, cap := s.cap }
     let ie := orc k s.tcur h
     match ie.base.ret with
-    | .raise => failEv s b 3 (req :: reqs) [] (k + 1)
-    | .interrupt => failEv s b 4 (req :: reqs) [] (k + 1)
+    | .raise => failEv s b kn 3 (req :: reqs) [] (k + 1)
+    | .interrupt => failEv s b kn 4 (req :: reqs) [] (k + 1)
     | .ok newDt dT =>
       match growth target s dT with
-      | none => failEv s b 3 (req :: reqs) [] (k + 1)
+      | none => failEv s b kn 3 (req :: reqs) [] (k + 1)
       | some g1 =>
         let cap1 := s.cap + g1
-        -- the sample is written, the counter taken back: `handle_events` sees the system at the start of the step
-        if ie.evRaise then failEv { s with cap := cap1 } b 3 (req :: reqs) [] (k + 1) else
         let tNext := s.tcur + dT
+        -- the piece of the step goes into the container (`events is not None`)
+        let kn1 := addKnot kn tNext
+        -- the sample is written, the counter taken back: `handle_events` sees the system at the start of the step;
+        -- if it raises, the piece of the dropped step is taken out again
+        if ie.evRaise then failEv { s with cap := cap1 } b (removeNewest kn1 dT) 3 (req :: reqs) [] (k + 1) else
         let sel := handle (stepSign s.tcur tNext) ie.probes
         let nroots := sel.1.length
         match growthEv target s dT cap1 nroots with
-        | none => failEv { s with cap := cap1 } b 3 (req :: reqs) [] (k + 1)
+        | none => failEv { s with cap := cap1 } b kn1 3 (req :: reqs) [] (k + 1)
         | some g2 =>
           let cap2 := cap1 + g2
           let b' := record s.tcur tNext cfg.dupTol b sel.1
           if sel.2 then
-            -- terminal event: nested integrate(root) from the start of the step, without events or callbacks
+            -- terminal event: the piece of the rolled-back step goes, then the nested integrate(root) from the start of the
+            -- step, without events or callbacks (it adds its own pieces when dense output is on)
+            let kn2 := removeNewest kn1 dT
             let root := (sel.1.getLast?.map (·.2.root)).getD s.tcur
             let nout := Loop.integrate cfg.loop { s with cap := cap2 } root ie.nested ie.nestedFuel
+            let kn3 := plainKnots cfg.dense kn2 s.ts nout.sys.ts
             if nestedRaised nout then
               -- the exception of the nested call passes through the outer handler (interrupt stays an interrupt)
-              failEv nout.sys b' (if nout.sys.status == 4 then 4 else 3) (req :: reqs) nout.reqs (k + 1)
+              failEv nout.sys b' kn3 (if nout.sys.status == 4 then 4 else 3) (req :: reqs) nout.reqs (k + 1)
             else
+              let kn4 := if cfg.dense then kn3 else trimOldest kn3 (kn.length - 1) dT
               let s2 := finishIter target wasFinal { nout.sys with status := 2 } ie.base newDt
               if ie.base.cbRaise then
-                { sys := { s2 with status := 3 }, book := b', reqs := req :: reqs, nestedReqs := nout.reqs, guardExit := false, stopped := true, iters := k + 1 }
+                { sys := { s2 with status := 3 }, book := b', knots := kn4, reqs := req :: reqs, nestedReqs := nout.reqs, guardExit := false, stopped := true, iters := k + 1 }
               else
-                { sys := s2, book := b', reqs := req :: reqs, nestedReqs := nout.reqs, guardExit := true, stopped := true, iters := k + 1 }
+                { sys := s2, book := b', knots := kn4, reqs := req :: reqs, nestedReqs := nout.reqs, guardExit := true, stopped := true, iters := k + 1 }
           else
             match growthEv target s dT cap2 nroots with
-            | none => failEv { s with cap := cap2 } b' 3 (req :: reqs) [] (k + 1)
+            | none => failEv { s with cap := cap2 } b' kn1 3 (req :: reqs) [] (k + 1)
             | some g3 =>
+              let kn' := if cfg.dense then kn1 else trimOldest kn1 (kn.length - 1) dT
               let s1 : Sys α := { s with ts := tNext :: s.ts, cap := cap2 + g3 }
               let s2 := finishIter target wasFinal s1 ie.base newDt
-              if ie.base.cbRaise then failEv s2 b' 3 (req :: reqs) [] (k + 1)
-              else loopEv cfg target orc fuel (k + 1) s2 b' (req :: reqs)
+              if ie.base.cbRaise then failEv s2 b' kn' 3 (req :: reqs) [] (k + 1)
+              else loopEv cfg target orc fuel (k + 1) s2 b' kn' (req :: reqs)
 
-/-- `integrate(t, events=[n functions])`: the recorded events persist across calls, `last_occurrence` is per call -/
-def integrateEv (cfg : CfgEv α) (s : Sys α) (evs : List (Nat × α)) (nEvents : Nat) (target : α) (orc : OracleEv α) (fuel : Nat) : OutEv α :=
+/-- `integrate(t, events=[n functions])`: the recorded events and the dense-output container persist across calls,
+`last_occurrence` is per call -/
+def integrateEv (cfg : CfgEv α) (s : Sys α) (evs : List (Nat × α)) (kn : List α) (nEvents : Nat) (target : α) (orc : OracleEv α) (fuel : Nat) : OutEv α :=
   let b0 : Book α := { last := List.replicate nEvents none, events := evs }
-  if s.crashed then { sys := s, book := b0, reqs := [], nestedReqs := [], guardExit := false, stopped := false, iters := 0 } else
-  if absC (target - s.tcur) < cfg.loop.eps then { sys := s, book := b0, reqs := [], nestedReqs := [], guardExit := true, stopped := false, iters := 0 } else
+  if s.crashed then { sys := s, book := b0, knots := kn, reqs := [], nestedReqs := [], guardExit := false, stopped := false, iters := 0 } else
+  if absC (target - s.tcur) < cfg.loop.eps then { sys := s, book := b0, knots := kn, reqs := [], nestedReqs := [], guardExit := true, stopped := false, iters := 0 } else
   let st0 : Status := if s.status == 2 ∨ s.status == 3 ∨ s.status == 4 then 0 else s.status
   let dt2 := initialDt cfg.loop s target
   match allocSteps (target - s.tcur) dt2 with
-  | none => { sys := { s with dt := dt2, status := st0, crashed := true }, book := b0, reqs := [], nestedReqs := [], guardExit := false, stopped := false, iters := 0 }
+  | none => { sys := { s with dt := dt2, status := st0, crashed := true }, book := b0, knots := kn, reqs := [], nestedReqs := [], guardExit := false, stopped := false, iters := 0 }
   | some n =>
-    let out := loopEv cfg target orc fuel 0 { s with dt := dt2, cap := s.cap + n, status := st0 } b0 []
+    let out := loopEv cfg target orc fuel 0 { s with dt := dt2, cap := s.cap + n, status := st0 } b0 kn []
     { out with sys := { out.sys with status := finalStatus out.guardExit out.sys.status, cap := out.sys.ts.length } }
 
 end DV.LoopEv
